@@ -5,9 +5,9 @@
      has_similarity_properties()  = hash((options, frozenset(cfw) | None, data_type))   for a typed feature
      base_similarity_properties() = hash((options, frozenset(cfw) | None))
    and hash(options) = hash(_make_hashable(options.group)) -- the context is not part of it.  The model replaces a hash
-   value by the thing hashed: `it_kb` is the class of (group options, compute frameworks) under Python == (the index of
-   the first feature of the request with an equal pair), so "same hash" becomes "same class".  Equal pairs do hash equal
-   (Props C15_options_eq_hash / C15_feature_eq_hash); that unequal ones do not collide in 64 bits is assumed.
+   value by the thing hashed: `it_kb` is the class of (canonical form of the group options, compute frameworks) under
+   Python == (the index of the first feature of the request with an equal pair), so "same hash" becomes "same class".
+   That different canonical forms do not collide in 64 bits is assumed.
 
    Iteration order of the Python set `features` is the order of the input list (a parameter; theorems hold for every
    order).  hash_collector is a dict: an association list in insertion order, keyed by gkey. *)
@@ -65,8 +65,14 @@ Record gfeat := {
   g_cfw : option (list nat);
   g_ty : option nat
 }.
+(* base_similarity_properties() equal.  The code compares hash((options, frozenset(cfw))) where hash(options) =
+   hash(_make_hashable(options.group)): two features fall into one class when the CANONICAL FORMS of their group options
+   are equal -- which is coarser than equality of the options ([1, 2] and (1, 2) have the same canonical form) *)
 Definition base_eqb (a b : gfeat) : bool :=
-  py_eq (VDict (g_group a)) (VDict (g_group b)) && py_eq (cfw_val (g_cfw a)) (cfw_val (g_cfw b)).
+  match hash_key (VDict (g_group a)), hash_key (VDict (g_group b)) with
+  | Some x, Some y => py_eq x y
+  | _, _ => false
+  end && py_eq (cfw_val (g_cfw a)) (cfw_val (g_cfw b)).
 Fixpoint first_idx {A} (p : A -> bool) (l : list A) : nat :=
   match l with [] => 0 | x :: t => if p x then 0 else S (first_idx p t) end.
 Definition base_class (fs : list gfeat) (x : gfeat) : nat := first_idx (fun y => base_eqb y x) fs.
